@@ -7,6 +7,7 @@ Holds(p, idx, key, val) == CASE p.name = "true"   -> TRUE
                              [] p.name = "keymod" -> key % p.m = p.r
                              [] p.name = "valmod" -> val % p.m = p.r
                              [] p.name = "index"  -> key = p.i     \* key = index for index iterators
+                             [] p.name = "sum3"   -> (key + val) % p.m = p.r
 Inside(seq, pos) == pos >= 0 /\ pos < Len(seq)
 NextPos(seq, pos) == IF pos < Len(seq) THEN pos + 1 ELSE Len(seq)     \* saturates at n
 PrevPos(seq, pos) == IF pos >= 0 THEN pos - 1 ELSE -1                  \* saturates at -1
